@@ -221,9 +221,61 @@ def r24c(ctx, run):
               hit[0]["ln"] if hit else lhs.ln, "parse_lhs must dispatch PREFIX_TOKENS to parse_prefix_expr")
 
 
+def r24d(ctx, run):
+    """redundant parentheses stay parentheses: the look-ahead of parse_lambda that tells a parameter list from a parenthesised expression
+    is evaluated abstractly on token sequences.  A group that contains tokens but no `:` `,` `...` at its own nesting level is an
+    expression (whatever follows it - in particular a `{` when it is the condition of an if/while/switch); a group with `:` / `,` at its
+    own level is a parameter list; an empty group is a lambda header only before `->`, `{`, `extern`, `#`."""
+    from symint import SymInterp, Env
+    from absint import Obj, Term, Variant, Panic, CannotEstablish, _Return, _Break
+    fn = ctx.syn.fn("parse_lambda", "grammar/expr.rs")
+    blocks = [n for n in walk(fn.body) if n.get("k") == "block" and n.get("label")]
+    det = [b for b in blocks if "parse_paren" in canon(b)]
+    if len(det) != 1:
+        raise LookupError("the labelled look-ahead block of parse_lambda (%d candidates)" % len(det))
+    det = det[0]
+    K = lambda n: Variant("TokenKind::" + n)
+    T = {"(": "LParen", ")": "RParen", "[": "LBrack", "]": "RBrack", "{": "LBrace", "}": "RBrace", ":": "Colon", ",": "Comma", "...": "Ellipsis", "->": "Arrow",
+         "a": "Ident", "+": "Plus", ";": "Semicolon", ".": "Dot", "extern": "Extern", "#": "Hash", "<": "Left", "1": "Int", "i32": "Ident"}
+    cases = [
+        ("( a ) {", "paren"), ("( ( a ) ) {", "paren"), ("( ( ( a ) ) ) {", "paren"), ("( [ a ] ) {", "paren"), ("( { a } ) {", "paren"), ("( a + a ) {", "paren"),
+        ("( ( a + a ) ) ;", "paren"), ("( ( a , a ) ) {", "paren"), ("( a . a ( a , a ) ) {", "paren"), ("( ( a ) + ( a ) ) {", "paren"), ("( a ) ;", "paren"), ("( ) ;", "paren"),
+        ("( a : i32 ) {", "lambda"), ("( a : i32 , a : i32 ) -> i32 {", "lambda"), ("( ) {", "lambda"), ("( ) -> i32 {", "lambda"), ("( a : ... i32 ) {", "lambda"),
+        ("( a : [ 1 ] i32 ) extern", "lambda"), ("( ( a )", "paren"),
+    ]
+    for text, want in cases:
+        toks = [K(T[t]) for t in text.split()]
+        pobj = Obj("Parser", token_idx=0, toks=toks)
+
+        def peek(i, r, a):
+            idx = r.fields["token_idx"]
+            return r.fields["toks"][idx] if isinstance(idx, int) and 0 <= idx < len(r.fields["toks"]) else None
+        it = SymInterp(methods={"peek": peek, "at": lambda i, r, a: peek(i, r, a) == a[0], "contains": lambda i, r, a: (a[0].last in r) if isinstance(r, frozenset) else NotImplemented},
+                       funcs={"TokenSet::new": lambda i, a: frozenset(x.last for x in a[0]), "parse_paren": lambda i, a: Term("paren")})
+        env = Env(None, {fn.param_names()[0]: pobj, fn.param_names()[1]: Term("recovery_set")})
+        try:
+            it.eval(det, env)
+            got = "lambda"
+        except _Return as r:
+            got = "paren" if r.v == Term("paren") else repr(r.v)
+        except _Break:
+            got = "lambda"
+        except (Panic, CannotEstablish) as c:
+            run.finding("parse_lambda", "lookahead:" + text, fn.file, det["ln"], "cannot establish what the look-ahead decides for `%s`: %s" % (text, getattr(c, "what", c)))
+            continue
+        restored = pobj.fields["token_idx"] == 0
+        good = got == want and restored
+        run.check(good, fn.site(det["ln"]), "`%s` -> %s" % (text, got), "parse_lambda", "lookahead:" + text, fn.file, det["ln"],
+                  "`%s` is taken for a %s%s; it is a %s: %s" % (text, "lambda header" if got == "lambda" else "parenthesised expression" if got == "paren" else got,
+                                                               "" if restored else " (and the cursor is not restored)", "parenthesised expression" if want == "paren" else "lambda header",
+                                                               "redundant parentheses around an expression must parse into nested ParenExprs without errors" if want == "paren"
+                                                               else "a parameter list must start a lambda"))
+
+
 def rules(ctx):
     return [
         Rule("R24.a", "binding-power table equals the documented five left-associative levels; Pratt loop break/recursion/entry wiring", 18, r24a),
         Rule("R24.b", "operator inventories agree: tokenizer.txt, parser sets, ast::BinaryOp/UnaryOp, hir lowering, quick-assign set", 45, r24b),
+        Rule("R24.d", "redundant parentheses stay parentheses: parse_lambda's look-ahead evaluated on token sequences (groups, nested groups, parameter lists, empty groups)", 19, r24d),
         Rule("R24.c", "prefix operators parse their operand without the binary loop; post operators first", 5, r24c),
     ]
